@@ -319,11 +319,16 @@ def run_check(modname, tier, seed, workers=None, out=sys.stdout):
         os.remove(_STOP_FLAG)
 
     # ---- report
+    # one line per finding listed for this property (observed in this run or not); nothing is ever
+    # added to the findings file at run time
     known_all = load_known()
-    for kid in sorted(total.known):
-        ent = [k for k in known_all if k["id"] == kid]
-        what = ent[0].get("what_fails", "") if ent else ""
-        print("KNOWN-FINDING: property=%s %s: %s [%s]" % (prop, kid, what, str(total.known[kid])[:200]), file=out)
+    for ent in known_all:
+        if ent.get("property") != prop:
+            continue
+        kid = ent["id"]
+        seen = ("observed in this run: " + str(total.known[kid])[:200]) if kid in total.known else \
+            "not reached by this run's scenarios / sample sizes"
+        print("KNOWN-FINDING: property=%s %s: %s [%s]" % (prop, kid, ent.get("what_fails", ""), seen), file=out)
 
     exit_code = 0
     n_viol = 0
